@@ -29,6 +29,7 @@ RULE += ("  " + 'Also (round 7): a session that sends USER for its own account a
 RULE += ("  " + 'Also (round 8): USER for an unlimited account after an eighth of a transfer begun under a user / user-connection limit: the transfer keeps its limit.')
 RULE += ("  " + "Also (round 9): speed limits together with short time-outs (the pause a limit imposes is not the peer's silence).")
 RULE += ("  " + 'Also (round 10): USER for another account (with or without password, no PASS sent) after the 150 of a transfer whose data connection is not made yet (when=before_data); a refused USER (530) before each re-login of relogin_repeat.')
+RULE += ("  " + 'Also (round 11): 300 other accounts log in and leave between the first session of a limited user and one more.')
 ASSUMPTIONS = ["virtual time of the simulated loop; eps = half a byte per reset fold plus float slack",
                "the bound is cumulative since the first limited I/O (an idle period earns credit), as the statement says"]
 REQUIRED_MONITORS = ["bound_checks", "delay_checks", "unlimited_ops", "e2e_bound_checks", "e2e_duration", "relogin_duration", "relogin_shared", "relogin_repeat"]
@@ -582,6 +583,7 @@ async def relogin_shared(net, hyg, plan):
     L, size, d, n = plan["L"], plan["size"], plan["direction"], plan["sessions"]
     key = ("write" if d == "download" else "read") + "_speed_limit"
     users = [aioftp.User("other", None, base_path="/"), aioftp.User("slow", None, base_path="/", **{key: L})]
+    users += [aioftp.User(f"guest{j:03d}", None, base_path="/") for j in range(plan.get("other_logins", 0))]
     w = W.World(net, tree={"/f.bin": payload_bytes(size, 2)}, users=users)
     await w.start()
     try:
@@ -598,6 +600,20 @@ async def relogin_shared(net, hyg, plan):
             fresh = Session(net, 2121, name=f"late{j}")
             await fresh.run([["connect"], ["login", "slow"], ["cmd", "TYPE I"]])
             ss[j] = fresh
+        if plan.get("other_logins"):
+            # many other accounts come and go while the user's first sessions stay; then one more session of the user arrives:
+            # its limit is still the one limit of all of them
+            from ..rawpeer import RawPeer
+            for j in range(plan["other_logins"]):
+                g = RawPeer(net, 2121, name=f"g{j}")
+                await g.connect()
+                await g.cmd(f"USER guest{j:03d}")
+                await g.cmd("QUIT")
+                g.cut("fin")
+            late = Session(net, 2121, name="late")
+            await late.run([["connect"], ["login", "slow"], ["cmd", "TYPE I"]])
+            ss.append(late)
+            n = len(ss)
         for s in ss:
             await s.run([[plan.get("pcmd", "epsv")]])
         t0 = loop.time()
@@ -743,6 +759,10 @@ def gen_cases(tier, seed):
         for d in ("download", "upload"):
             rel.append({"kind": "relogin_shared", "seed": seed, "sessions": n, "relogins": [], "via": [], "churn": churn, "direction": d,
                         "L": rng.choice([30000, 40000]), "size": rng.choice([60000, 90000]), "pcmd": rng.choice(["pasv", "epsv"])})
+    # 300 other accounts log in and leave between the user's first sessions and one more of them
+    for d in ("download", "upload"):
+        rel.append({"kind": "relogin_shared", "seed": seed, "sessions": 1, "relogins": [], "via": [], "other_logins": 300, "direction": d,
+                    "L": 30000, "size": 60000, "pcmd": "epsv"})
     for level in ("user_connection", "user"):
         for d in ("download", "upload"):
             for pipelined in (True, False):
